@@ -341,7 +341,42 @@ def run(repo: Repo, chk: Check, thorough: bool = False) -> None:
                'nor forced HIDDEN: the indexes and every reference to it link to a page that is never written', w.loc)
     if n_reg < 4:
         raise AnalysisError(f'R11.3: {n_reg} registrations in System.allobjects found (4 confirmed: addObject, handleDuplicate x2, _handle_reparenting_post)')
-    chk.require('R11.3', 8)
+    # every class page links to classIndex.html#<its qualified name> ("View In Hierarchy"); the anchor is emitted for the classes findRootClasses returns
+    # and for what subclassesFrom reaches from them through VISIBLE classes.  A visible class whose base is a hidden object is reached through
+    # nothing: the branch that handles a hidden base has to file the class itself
+    frc = repo.func('pydoctor.templatewriter.summary.findRootClasses')
+    zl = [n for n in frc.walk() if isinstance(n, ast.For) and isinstance(n.iter, ast.Call) and call_name(n.iter) == 'zip' and isinstance(n.target, ast.Tuple) and
+          len(n.target.elts) == 2 and all(isinstance(e, ast.Name) for e in n.target.elts)]
+    if not zl:
+        raise AnalysisError('R11.3: the loop over (base name, base object) pairs was not found in findRootClasses')
+    obv = zl[0].target.elts[1].id       # type: ignore[attr-defined]
+    # the table the function hands back (role, not name): the local whose items are returned
+    tbls = {x.id for r_ in frc.walk() if isinstance(r_, ast.Return) and r_.value is not None for c_ in ast.walk(r_.value)
+            if isinstance(c_, ast.Call) and call_name(c_) == 'items' and isinstance(c_.func, ast.Attribute) for x in [c_.func.value] if isinstance(x, ast.Name)}
+    if not tbls:
+        raise AnalysisError('R11.3: findRootClasses no longer returns the items of a local table')
+
+    def _hidden_when(t: ast.AST, pol: bool) -> bool:
+        """The test being `pol` is possible for (or implied by) a hidden base object."""
+        if isinstance(t, ast.UnaryOp) and isinstance(t.op, ast.Not):
+            return _hidden_when(t.operand, not pol)
+        if isinstance(t, ast.Attribute) and t.attr == 'isVisible' and norm(t.value) == obv:
+            return not pol
+        if isinstance(t, ast.BoolOp) and isinstance(t.op, ast.Or):
+            return any(_hidden_when(v, True) for v in t.values) if pol else False
+        return False
+    files_hidden = False
+    for n in ast.walk(zl[0]):
+        if isinstance(n, ast.If) and _hidden_when(n.test, True):
+            stores = [x for st in n.body for x in ast.walk(st) if (isinstance(x, ast.Subscript) and isinstance(x.ctx, ast.Store) and isinstance(x.value, ast.Name) and x.value.id in tbls) or
+                      (isinstance(x, ast.Call) and call_name(x) in ('setdefault', 'append') and any(isinstance(y, ast.Name) and y.id in tbls for y in ast.walk(x)))]
+            if stores:
+                files_hidden = True
+    chk.ob('R11.3', 'templatewriter.summary.findRootClasses :: a visible class with a hidden base is filed in the class index', files_hidden,
+           'the branch for a hidden base stores the class in the returned table' if files_hidden else
+           'no branch files a class whose base is a hidden object: it is neither a root nor reachable through its base, classIndex.html has no anchor for it and the '
+           '"View In Hierarchy" link of its page (and of its subclasses) leads nowhere', frc.loc)
+    chk.require('R11.3', 9)
 
     # ------------------------------------------------------------------ R11.4
     sp = repo.func('pydoctor.templatewriter.summary.summaryPages')
